@@ -360,8 +360,8 @@ def make_oracle(fs, stats=None):
             if o[0] == 'T':
                 tr.now += int(o[1])
                 continue
-            if o[0] in ('S', 'P') and first_open_call is None:
-                first_open_call = tr.now
+            if (o[0] in ('S', 'P') or (o[0] == 'Q' and len(o) > 1 and o[1] in ('pi', 'ci', 'tx', 'rx', 'hd', 'hb', 'ac'))) and first_open_call is None:
+                first_open_call = tr.now        # (a sending public call reaches Open() through SendMsg, like an application send)
             if not opened and not has_open and txs:
                 hard.append('not-open:op %d hands %d frame(s) to the driver before Open() has completed' % (k, len(txs)))
             if cold and txs and first_open_call is not None and tr.now - first_open_call < 200:
@@ -495,6 +495,79 @@ def make_oracle(fs, stats=None):
                 if tr.ready():
                     for i in range(ndev):
                         tr.check(i)
+                continue
+            # public calls of the application (harness ops Q / X / I / D / M / L; coq/Model/ApiDefs.v): what they hand to the driver is judged like
+            # any other frame - the senders (product / configuration information, PGN lists, heartbeats) are entitled only outside the claim
+            # window of a device with a usable address, address claims always
+            if o[0] == 'Q' and len(o) >= 3:
+                if o[1] == 'hi':
+                    if txs:
+                        hard.append('spurious:op %d (%s) hands frames to the driver' % (k, ' '.join(o)))
+                    continue
+                if not opened:
+                    continue
+                if tr.ready():
+                    for i in range(ndev):
+                        tr.check(i)
+                cur = tr.snap()
+                for e in txs:
+                    judge(e, k, cur)
+                continue
+            if o[0] == 'X':
+                if opened and tr.ready():
+                    for i, d in enumerate(tr.devs):
+                        if d.addr == 254:
+                            tr.next_address(i, True)
+                        tr.start_claim(i)
+                cur = tr.snap()
+                for e in txs:
+                    judge(e, k, cur)         # Restart() hands over address claims only (and whatever waited in the queue)
+                continue
+            if o[0] == 'I' and len(o) >= 5:
+                i, lo_, up_, si_ = int(o[1]), int(o[2]), int(o[3]), int(o[4])
+                if 0 <= i < ndev:
+                    d = tr.devs[i]
+                    inst = (d.name >> 32) & 0xff
+                    if lo_ != 255:
+                        inst = (inst & ~7) | (lo_ & 7)
+                    if up_ != 255:
+                        inst = (inst & 7) | ((up_ & 31) << 3)
+                    d.name = (d.name & ~(0xff << 32)) | (inst << 32)
+                    if si_ != 255:
+                        d.name = (d.name & ~(0xf << 56)) | ((si_ & 15) << 56)
+                if txs:
+                    hard.append('spurious:op %d (%s) hands frames to the driver' % (k, ' '.join(o)))
+                continue
+            if o[0] == 'D' and len(o) >= 7:
+                i, uq, fn, cl, mf, ig = (int(x) for x in o[1:7])
+                if 0 <= i < ndev:
+                    d = tr.devs[i]
+                    if mf != 65535:
+                        d.name = (d.name & ~(0x7ff << 21)) | ((mf & 0x7ff) << 21)
+                    if uq != 4294967295:
+                        d.name = (d.name & ~0x1fffff) | (uq & 0x1fffff)
+                    if fn != 255:
+                        d.name = (d.name & ~(0xff << 40)) | ((fn & 0xff) << 40)
+                    if cl != 255:
+                        d.name = (d.name & ~(0xff << 48)) | (((cl & 0x7f) << 1) << 48)
+                    if ig != 255:
+                        b7 = (d.name >> 56) & 0xff
+                        d.name = (d.name & ~(0xff << 56)) | ((((b7 & 0x0f) | ((ig << 4) & 0xff) | 0x80) & 0xff) << 56)
+                if txs:
+                    hard.append('spurious:op %d (%s) hands frames to the driver' % (k, ' '.join(o)))
+                continue
+            if o[0] == 'M' and len(o) >= 3:
+                # SetMode after initialisation: the application overwrites mode and addresses without announcing them - from here on the
+                # address bookkeeping of this oracle has no meaning; the mode-based rules follow the new mode
+                mode = int(o[1])
+                tr.mode = mode
+                untracked = True
+                if txs:
+                    hard.append('spurious:op %d (%s) hands frames to the driver' % (k, ' '.join(o)))
+                continue
+            if o[0] == 'L':
+                if txs:
+                    hard.append('spurious:op %d (%s) hands frames to the driver' % (k, ' '.join(o)))
                 continue
             # A, R, H: nothing to judge
             if txs:
@@ -856,6 +929,35 @@ def gen_late_config(r, cases, thorough):
         cases.append(cfg(mode, ndev, src, t0=r.choice(T0S)) + ' | ' + ' ; '.join(ops))
 
 
+def gen_api(r, cases, thorough):
+    """public calls of the application (SendProductInformation, SendConfigurationInformation, SendTx/RxPGNList, SendHeartbeat, SendIsoAddressClaim,
+    Restart, SetDeviceInformation[Instances], SetMode, list setters): inside and outside claim windows, at the null address, on cold nodes"""
+    from nodegen import random_history_api, api_op
+    for _ in range(120 if not thorough else 2500):
+        cases.append(random_history_api(r, n_ops=r.choice([10, 25, 40])))
+    senders = ['Q pi %d', 'Q ci %d', 'Q tx 255 %d 0', 'Q rx 50 %d 0', 'Q hd %d', 'Q tx 50 %d 1']
+    for mode in (1, 2, 0, 3, 4):
+        for _ in range(4 if not thorough else 40):
+            ndev = r.choice([1, 2, 3])
+            src = r.choice([22, 100, 250])
+            own = [own_addr(src, i) for i in range(ndev)]
+            k = r.randrange(ndev)
+            ops = []
+            for _j in range(r.randint(3, 6)):
+                ops += [r.choice(['C %d' % k, 'X', claim(own[k], 0), 'C %d' % k]), 'P' if r.random() < 0.5 else 'T 0', 'T %d' % r.choice([0, 1, 100, 249, 250, 251, 252, 300])]
+                for _s in range(r.randint(1, 4)):
+                    ops.append(r.choice(senders) % r.choice([k, k, r.randrange(ndev), -1, ndev]))
+                ops += [r.choice(['Q hb 1', 'Q hb 0', 'Q ac 255 %d 0' % k, 'Q ac 255 %d 2' % k, 'I %d 1 2 3' % k, 'P']), 'P']
+            cases.append(cfg(mode, ndev, src, t0=r.choice(T0S), hb=r.random() < 0.3) + ' | ' + ' ; '.join(ops))
+    # cold nodes: the sending calls open the node through SendMsg; nothing may leave before the interface has settled
+    for _ in range(10 if not thorough else 100):
+        ndev = r.choice([1, 2])
+        ops = []
+        for _j in range(r.randint(5, 12)):
+            ops += ['T %d' % r.choice([0, 1, 100, 199, 200, 201, 50]), (r.choice(senders) % r.randrange(ndev)) if r.random() < 0.7 else r.choice(['P', 'Q hb 1', 'X', 'Q ac 255 0 0'])]
+        cases.append(cfg(r.choice([1, 2, 3, 4, 0]), ndev, r.choice([22, 100]), t0=r.choice(T0S), cold=True) + ' | ' + ' ; '.join(ops))
+
+
 def gen(seed, tier):
     r = random.Random(seed * 7919 + 4)
     thorough = tier != 'quick'
@@ -869,4 +971,5 @@ def gen(seed, tier):
     gen_late_config(r, cases, thorough)
     for _ in range(150 if not thorough else 3000):
         cases.append(random_history(r, n_ops=r.choice([10, 25, 40])))
+    gen_api(r, cases, thorough)
     return cases
